@@ -64,11 +64,23 @@ Proof. destruct Hcode as [_ H]. apply H. Qed.
 Definition fun_ok (s : nat) : Prop :=
   exists pc2 e p, (forall m, skip_block_from code m s = Ok pc2) /\ stmt_at code pc2 = Some (FReturn e p).
 
+(* the parameter names of a function value are the ones written in a function header of the code, the statement before
+   the body's first one *)
+Fixpoint arg_names (as_ : list expr) : option (list text) :=
+  match as_ with
+  | [] => Some []
+  | EVar x _ :: r => match arg_names r with Some l => Some (x :: l) | None => None end
+  | _ => None
+  end.
+Definition params_ok (s : nat) (ps : list text) : Prop :=
+  exists q f fp args ap sp, stmt_at code (pred (pred s)) = Some (FFuncDef q) /\
+    stmt_at code (pred s) = Some (FExpr (ECall (EVar f fp) args ap) sp) /\ arg_names args = Some ps.
+
 Definition vok (h : heap) (v : value) : Prop :=
   match v with
   | VList a => a < length (h_lists h)
   | VRec a => a < length (h_recs h)
-  | VFun s _ => fun_ok s
+  | VFun s ps => fun_ok s /\ params_ok s ps
   | _ => True
   end.
 
